@@ -10,10 +10,17 @@ def _h(x):
     return hashlib.sha1(x).hexdigest()[:16]
 
 
-def message_digest(m, queries=True):
-    """m: a decoded (wired) BufrMessage -> {component: hash}"""
+def message_digest(m, queries=True, tools=None):
+    """m: a decoded (wired) BufrMessage -> {component: hash}.  tools: long-lived renderer / querent objects to use instead of
+    new ones ({'ft','nt','fj','nj','dq','mq'}) - a renderer or querent is reusable, what it gives for a message does not depend on
+    the messages it served before"""
     from pybufrkit.renderer import FlatTextRenderer, NestedTextRenderer, FlatJsonRenderer, NestedJsonRenderer
     from pybufrkit.utils import EntityEncoder
+    tools = tools or {}
+    FlatTextRenderer = (lambda: tools['ft']) if 'ft' in tools else FlatTextRenderer
+    NestedTextRenderer = (lambda: tools['nt']) if 'nt' in tools else NestedTextRenderer
+    FlatJsonRenderer = (lambda: tools['fj']) if 'fj' in tools else FlatJsonRenderer
+    NestedJsonRenderer = (lambda: tools['nj']) if 'nj' in tools else NestedJsonRenderer
     td = m.template_data.value
     out = {}
     out['values'] = _h(td.decoded_values_all_subsets)
@@ -36,14 +43,14 @@ def message_digest(m, queries=True):
         for lab in (labels[0] if labels else []):
             if lab[0] == '0' and lab not in ids:
                 ids.append(lab)
-        dq = DataQuerent(NodePathParser())
+        dq = tools.get('dq') or DataQuerent(NodePathParser())
         res = []
         for lab in ids[:6]:
             try:
                 res.append((lab, repr(dq.query(m, lab).all_values())))
             except Exception as e:
                 res.append((lab, 'raises ' + type(e).__name__))
-        mq = MetadataQuerent(MetadataExprParser())
+        mq = tools.get('mq') or MetadataQuerent(MetadataExprParser())
         for e in ('%length', '%n_subsets', '%3.section_length', '%master_table_version'):
             res.append((e, repr(mq.query(m, e))))
         out['queries'] = _h(res)
